@@ -189,16 +189,19 @@ func (g *compGen) step(hold *int) bool {
 }
 
 func genCompose(c *Ctx) {
-	// the quiescence test stops the world: a few shards are enough, the others stay idle
-	if c.Shard%4 != 0 {
+	// ONE shard only.  The quiescence test reads goroutine wait states, and a goroutine parked on a mutex counts as
+	// parked; the real bot.go / friendly.go log through package log, whose mutex is process-wide: with several
+	// sessions running in one process a loop goroutine waiting for ANOTHER session's log.Printf looks quiescent for a
+	// moment (seen once in ~10^5 ops as a premature `settle`).  The other generators of C07 run in processes of their own.
+	if c.Shard != 0 {
 		return
 	}
-	n := c.Scale(400, 12000) * 4
+	n := c.Scale(400, 12000) * c.NShard
 	kinds := [][2]string{{"F", "none"}, {"F", "center"}, {"F", "doublestack"}, {"F", "cairn"}, {"T", "60000000000:1"}, {"T", "1000000000:0"},
 		{"F", "doublestack"}, {"F", "cairn"}}
 	for i := 0; i < n; i++ {
 		g := &compGen{c: c, r: c.R.Fork()}
-		k := kinds[(i+c.Shard/4)%len(kinds)]
+		k := kinds[i%len(kinds)]
 		g.kind, g.arg = k[0], k[1]
 		g.col = []string{"w", "b", "w", "b", "o"}[g.r.Intn(5)]
 		g.size = 4 + g.r.Intn(2)
